@@ -151,11 +151,28 @@ func (w *Worker) maybeConcretizeKey(m *Map, key Value) Value {
 	if m.live <= 2 {
 		return key
 	}
+	// replay: the discovery run recorded whether the key was enumerated
+	if w.pos < len(w.prefix) {
+		d := w.prefix[w.pos]
+		switch d.K {
+		case 'k':
+			w.pos++
+			w.taken = append(w.taken, d)
+			w.addPC(w.P.Cmp(OpEq, i.T, w.P.Const(i.T.W, d.V)))
+			return mkInt(int(i.W), d.V)
+		case 'n':
+			w.pos++
+			w.taken = append(w.taken, d)
+			return key
+		}
+		panic(pathAbort{"engine", fmt.Sprintf("nondeterministic replay: decision %d should be a map-key decision, prefix says %c", w.pos, d.K)})
+	}
 	vals, complete := w.enumValues(i.T, w.E.Cfg.KeyEnumLimit)
 	if !complete {
+		w.taken = append(w.taken, Decision{'n', 0})
 		return key
 	}
-	v := w.chooseValue(i.T, vals, "mapkey-enum")
+	v := w.chooseValue(i.T, vals, "mapkey-enum", 'k')
 	return mkInt(int(i.W), v)
 }
 
